@@ -1,4 +1,6 @@
 import CsVerif.Model.C10
+import CsVerif.Model.C10Gen
+import CsVerif.Model.PyUShow
 /-! Line-protocol driver for the C10 model.
 
 Encodings (all inside one line, words separated by single blanks)
@@ -15,6 +17,11 @@ Operations
 * `lex x<text>`    `lexProfile` on arbitrary text
 * `pp <n> x.. x..` `postproc` + join on an arbitrary item list
 * `bad x<src>`     accept / reject only
+* `gpp …` / `gtxt …` / `gtree …`  (streams `g-*`) the same as `pp` / `txt` / `tree` with the generator `postproc` TRANSLATED from its
+                   source (Gen/PyC2Text.lean) in place of the model's `postproc`; `?postproc` when the translated definition
+                   raises or yields something that is not a `str`
+* `gppv <value>`   `list(postproc(value))` through the translated definition for an argument of any kind (notation of
+                   Model/PyUShow.lean)
 -/
 namespace C10
 open Proto
@@ -148,6 +155,46 @@ def showHAnswer : HAnswer → String
         | _ => false
       s!"ok yield={yieldFlag} tree {showTree t} print {showToks out} relex={showBool relex} reparse={showBool reparse}"
 
+/-! ### `g-*` streams: the translated `postproc` -/
+
+def gstep : List String → String
+  | "gpp" :: ws =>
+    match ws.mapM textTok with
+    | none => "bad-op"
+    | some items =>
+      match C10Gen.postprocG items with
+      | some out => showText (joinItems idc out)
+      | none => "?postproc"
+  | ["gtxt", s] =>
+    match textTok s with
+    | none => "bad-op"
+    | some src =>
+      match parseText G src with
+      | .fail => "exc LarkError"
+      | .fuel => "fuel"
+      | .ok d =>
+        match printTree G (toTree d) with
+        | none => "none"
+        | some out =>
+          match C10Gen.asTextOfG G idc out with
+          | some text => s!"text {showText text}"
+          | none => "?postproc"
+  | "gtree" :: ws =>
+    match readTree ws with
+    | none => "bad-op"
+    | some t =>
+      match printTree G t with
+      | none => "none"
+      | some out =>
+        match C10Gen.asTextOfG G idc out with
+        | some text => s!"print {showToks out} text {showText text}"
+        | none => "?postproc"
+  | ["gppv", a] =>
+    match PyU.vTok (fun _ => none) (fun _ => none) a with
+    | some a => showPy PyU.vShow (Gen.PyC2Text.as_text_postproc a)
+    | none => "bad-op"
+  | _ => "bad-op"
+
 def step : List String → String
   | ["rt", s] =>
     match textTok s with
@@ -183,6 +230,6 @@ def step : List String → String
     match ws.mapM textTok with
     | none => "bad-op"
     | some items => showText (joinItems idc (postproc items))
-  | _ => "bad-op"
+  | ws => gstep ws
 
 end C10
